@@ -17,4 +17,10 @@ P['C02'] = dict(
     mismatch_meaning='the implementation\'s checksum / gate result differs from the model proved equal to CRC-16/MCRF4XX and to the gate specification: a concrete input on which the property fails',
 )
 
+P['C01'] = dict(
+    rule='frames built from boundary-value field tuples (header bytes {0,1,7f,80,fd,fe,ff}, ids {0,1,255,256,0x607,0xffff,0x10000,0xfffffe,0xffffff}, payload lengths {0,1,2,3,254,255}, timestamps around 2^24/2^32/2^40/2^48) mixed with random values, 2 versions x signed/unsigned; each written by frame.Writer.Write (bytes, number of transport writes, frame after the call) and read back by frame.Reader in one chunk or a random split followed by a junk byte. Non-trivial: the model output is not a bare rejection.',
+    assumptions=['bufio.Reader modelled by Model/Stream.v', 'domain of the property: payload <= 255 bytes, v2 ids < 2^24 (larger values are emitted truncated by the code and are not checked)'],
+    mismatch_meaning='bytes emitted or frame read back differ from the model proved equal to the MAVLink layout and to round-trip: a concrete frame on which the property fails',
+)
+
 KNOWN_MATCH = {}
